@@ -362,12 +362,12 @@ func (e *SpecEnv) Eval(x SExpr) SV {
 				if c, ok := p.(SCall); ok && c.Fn == "$multi" {
 					var ts []string
 					for _, a := range c.Args {
-						ts = append(ts, patTerm(ne.Eval(a)))
+						ts = append(ts, ne.patOf(a))
 					}
 					ps = append(ps, "("+strings.Join(ts, " ")+")")
 					continue
 				}
-				ps = append(ps, "("+patTerm(ne.Eval(p))+")")
+				ps = append(ps, "("+ne.patOf(p)+")")
 			}
 			bt = fmt.Sprintf("(! %s :pattern %s)", bt, strings.Join(ps, " :pattern "))
 		}
@@ -379,6 +379,17 @@ func (e *SpecEnv) Eval(x SExpr) SV {
 
 // patTerm: the term of a trigger expression; a struct location (s[i] of a struct-element slice, *p) is
 // represented by its reference (an empty :pattern () is rejected by cvc5 and ignored by z3).
+// patOf: the trigger term of a pattern expression. has(m, k) is a conjunction (m != nil && k in dom(m)), which no
+// solver accepts inside a pattern: its trigger is the domain lookup alone.
+func (e *SpecEnv) patOf(p SExpr) string {
+	if c, ok := p.(SCall); ok && c.Fn == "has" && len(c.Args) == 2 {
+		m, k := e.Eval(c.Args[0]), e.Eval(c.Args[1])
+		dom, _, _, _ := e.G.TE.MapHeaps(m.Typ)
+		return fmt.Sprintf("(select (select %s %s) %s)", e.Cur.Heap(dom), m.Term, k.Term)
+	}
+	return patTerm(e.Eval(p))
+}
+
 func patTerm(v SV) string {
 	if v.Term == "" && v.Loc != nil {
 		return v.Loc.Base
@@ -804,6 +815,14 @@ func (e *SpecEnv) evalCall(x SCall) SV {
 	case "marshalAt":
 		// the value handed to the i-th successful xml.Marshal/MarshalIndent call (ghost sequence)
 		_, seq, _ := marshalHeaps(e.G)
+		return SV{Term: fmt.Sprintf("(select %s %s)", e.Cur.Heap(seq), arg(0).Term), Typ: types.NewInterfaceType(nil, nil)}
+	case "marshalTried":
+		// number of xml.Marshal/MarshalIndent calls so far, accepted or refused (ghost)
+		n, _ := marshalTryHeaps(e.G)
+		return SV{Term: e.Cur.Heap(n), Typ: intT}
+	case "marshalTriedAt":
+		// the value handed to the i-th xml.Marshal/MarshalIndent call, accepted or refused (ghost sequence)
+		_, seq := marshalTryHeaps(e.G)
 		return SV{Term: fmt.Sprintf("(select %s %s)", e.Cur.Heap(seq), arg(0).Term), Typ: types.NewInterfaceType(nil, nil)}
 	case "marshalOut":
 		// the bytes returned by the i-th successful xml.Marshal/MarshalIndent call (ghost sequence)
